@@ -397,8 +397,8 @@ Section Stable.
 End Stable.
 
 (* a cache configured with size 0 can never finish an insertion: the loop condition
-   len(entries) >= 0 always holds (degenerate configuration, outside the property's
-   "configured size") *)
+   len(entries) >= 0 always holds (degenerate configuration, outside what the property
+   calls a configured size) *)
 Lemma evict_size_zero fuel now dur es : evict fuel 0 now dur es = None.
 Proof.
   revert es. induction fuel as [|f IH]; intro es; simpl; [reflexivity|].
